@@ -52,6 +52,11 @@ func (self *Compiler) compileFn(node ast.AnalyzedFunctionDefinition) (annotation
 	self.pushScope()
 	defer self.popScope()
 
+	// A function starts outside of any try-block (function literals are compiled in the middle of their parent).
+	oldTryDepth := self.tryDepth
+	self.tryDepth = 0
+	defer func() { self.tryDepth = oldTryDepth }()
+
 	// Compile annotations.
 	if node.Annotation != nil {
 		compiledItems := make([]CompiledAnnotation, len(node.Annotation.Items))
